@@ -44,6 +44,12 @@ def filler_bytes(kind, seed, n):
             out.append(((h >> 20) % 94) + 33)
         elif kind == "adversarial":
             out.append(ADV[(h >> 20) % len(ADV)])
+        elif kind == "small-int":    # every 32-bit word becomes a small positive integer (looks like a count)
+            out.append(1 + (s + i // 4) % 3 if i % 4 == 0 else 0)
+        elif kind == "float-special":  # words that are NaN / inf when read as float32
+            out.append((0x00, 0x00, 0xC0 if (s + i // 4) % 2 else 0x80, 0x7F if (s + i // 4) % 3 else 0xFF)[i % 4])
+        elif kind == "negative-int":
+            out.append(0xFF if i % 4 else 0xFE - (s % 3))
         else:
             out.append(0)
     return bytes(out)
@@ -107,14 +113,15 @@ def run_blocks(ctx, case):
 
 
 def blocks_strategy(tier):
-    fills = st.tuples(st.sampled_from(["random", "random", "ff", "text", "adversarial", "adversarial"]), st.integers(0, 2 ** 32 - 1)).map(list)
+    fills = st.tuples(st.sampled_from(["random", "random", "ff", "text", "adversarial", "adversarial", "small-int", "small-int", "float-special", "negative-int"]),
+                      st.integers(0, 2 ** 32 - 1)).map(list)
     return st.sampled_from(specs.TYPES).flatmap(lambda t: st.fixed_dictionaries({
         "spec": specs.SPEC[t](tier, 0), "hints": specs.HINTS, "source": st.sampled_from(["lib", "ref"]), "fill": fills}))
 
 
 # ---------------------------------------------------------------------------------------
 def capture_strategy(tier):
-    fills = st.tuples(st.sampled_from(["random", "ff", "text", "adversarial", "zero"]), st.integers(0, 2 ** 32 - 1)).map(list)
+    fills = st.tuples(st.sampled_from(["random", "ff", "text", "adversarial", "zero", "small-int", "float-special", "negative-int"]), st.integers(0, 2 ** 32 - 1)).map(list)
     return st.fixed_dictionaries({"slot": st.sampled_from([0, 1, 3, 4, 5, 6, 7, 0, 1, 7]), "fill": fills})
 
 
@@ -142,7 +149,7 @@ def container_strategy(tier):
                    "adate": draw(dates31)} for t in types]
         return {"N": n, "blocks": blocks, "dates": draw(st.lists(dates31, min_size=3, max_size=3)),
                 "source": draw(st.sampled_from(["generated", "generated", "capture-table"])),
-                "fill": [draw(st.sampled_from(["random", "ff", "text", "adversarial"])), draw(st.integers(0, 2 ** 32 - 1))]}
+                "fill": [draw(st.sampled_from(["random", "ff", "text", "adversarial", "small-int", "float-special", "negative-int"])), draw(st.integers(0, 2 ** 32 - 1))]}
 
     return cases()
 
@@ -223,9 +230,9 @@ SUBS = [
 
 
 def _adapter(spec, raw, tail):
-    kinds = ["random", "ff", "text", "adversarial"]
+    kinds = ["random", "ff", "text", "adversarial", "small-int", "float-special", "negative-int"]
     t = bytes(tail) + b"\x00" * 8
-    return {"spec": spec, "source": "ref", "fill": [kinds[t[0] % 4], int.from_bytes(t[1:5], "little")]}
+    return {"spec": spec, "source": "ref", "fill": [kinds[t[0] % 7], int.from_bytes(t[1:5], "little")]}
 
 
 SUBS += [Sub(f"fuzz:{t}", run_blocks, kind="fuzz", fuzz_target=("spec", t, _adapter), budget=(0, 40000), shards=(1, 2),
